@@ -133,6 +133,8 @@ def norm_model(text):
         return ('err', p[1])
     if p[0] == b'panic':
         return ('panic', p[1])
+    if p[0] in (b'hang', b'abort'):
+        return ('slow', None)       # the extracted model ran out of time / stack: no verdict from it
     return ('bad', text)
 
 def unwire(p):
@@ -766,6 +768,32 @@ def gen_tree(r, depth, cx):
         return None
     return t, v
 
+def repr_bound(t):
+    """upper bounds (numerator bits, denominator bits) of the *representation* the code builds:
+    leading zero limbs survive additions and products, so lengths can exceed the value's size"""
+    k = t[0]
+    if k == 'lit':
+        q = lit_value(t[1])
+        return (max(64, q.numerator.bit_length() + 64), max(64, q.denominator.bit_length() * 2 + 64))
+    if k == 'i':
+        return (64, 64)
+    if k in ('neg', 'real', 'imag', 'conj'):
+        return repr_bound(t[1])
+    (an, ad), (bn, bd) = repr_bound(t[1]), repr_bound(t[2])
+    if k in ('add', 'sub'):
+        return (max(an + bd, bn + ad) + 64, ad + bd)
+    if k == 'mul':
+        return (an + bn + 128, ad + bd + 64)
+    if k == 'div':
+        return (2 * (an + bn + ad + bd) + 128, 2 * (an + bn + ad + bd) + 128)
+    if k == 'pow':
+        try:
+            v = spec_eval(t[1])[0]; z = abs(spec_eval(t[2])[0].numerator)
+        except Exception:
+            return (1 << 30, 1 << 30)
+        return ((v.numerator.bit_length() + 64) * max(z, 1) + 64, (v.denominator.bit_length() + 64) * max(z, 1) + 64)
+    raise ValueError(k)
+
 def all_sizes_ok(t):
     """every intermediate value defined and size-bounded (keeps gcds on the model side cheap)"""
     try:
@@ -773,6 +801,9 @@ def all_sizes_ok(t):
     except (Undefined, Outside):
         return False
     if not size_ok(v):
+        return False
+    rb = repr_bound(t)
+    if rb[0] > 3 * NUM_BITS or rb[1] > 24 * DEN_BITS:
         return False
     return all(all_sizes_ok(x) for x in t[1:]) if t[0] not in ('lit', 'i') else True
 
@@ -955,6 +986,7 @@ def check_expressions(c):
         MSG = {'div0': 'division by zero', '0^0': 'zero to the power of zero', 'huge': 'exponent too large'}
     CODE_MSG = {1: MSG['div0'], 2: MSG['0^0'], 3: MSG['huge']}
     sampled = False
+    model_slow = []
     for idx, (t, fam) in enumerate(all_trees):
         e = text_of(t)
         o_dbg, o_re, o_im, o_plain = outs[4 * idx:4 * idx + 4]
@@ -1001,7 +1033,9 @@ def check_expressions(c):
                 c.violation('expression-error', dict(rp, expected_error=msg))
                 continue
         # ---- impl vs model (representation level, through @debug) ----------
-        if nm[0] == 'ok':
+        if nm[0] == 'slow':
+            model_slow.append(e[:200])
+        elif nm[0] == 'ok':
             try:
                 flag = nm[1][0] == 1
                 mre = unwire_rat(nm[1][1]); mim = unwire_rat(nm[1][2])
@@ -1024,6 +1058,13 @@ def check_expressions(c):
             c.violation('expression-model-panic', dict(rp, kind='impl-vs-model'), no_input=True)
         if not sampled and nops >= 4 and fam == 'complex':
             c.sample({'expr': e[:300], 'debug': o_dbg[1][:200], 'real': o_re[1][:120], 'imag': o_im[1][:120]}); sampled = True
+    # the extracted model uses unary-structured binary numbers and quadratic list access: a few
+    # very long non-canonical operands may exceed its time budget; that is not a verdict on fend
+    c.extra['l2_model_timeouts'] = len(model_slow)
+    if model_slow:
+        c.notes.append('L2: model gave no answer in time on %d of %d trees (impl-vs-spec still checked): %s' % (len(model_slow), len(all_trees), model_slow[0]))
+    if len(model_slow) * 100 > len(all_trees):
+        c.violation('expression-model-too-slow', {'kind': 'tie', 'layer': 'L2 expression', 'count': len(model_slow), 'of': len(all_trees), 'first': model_slow[:3]}, no_input=True)
 
 
 def check(c):
